@@ -330,6 +330,16 @@ def gen_c13(tier, seed):
         if rng.random() < 0.5:
             steps += [bk(o)]
         scens.append({"id": sid("C13", "flt", i), "props": ["C13"], "mode": "fault", "tags": ["faults"], "steps": steps})
+    # more index hunks than one index sub-directory holds (10 000): a real backup of 10 050 empty
+    # files with one entry per hunk; and, for the reader, an archive written by the harness with hunks
+    # on both sides of that boundary
+    scens.append({"id": sid("C13", "bulk", 0), "props": ["C13"], "mode": "probe", "no_create": True, "tags": ["index-subdirectories"],
+                  "steps": [{"op": "bulk_probe", "nfiles": 10050 if tier == "quick" else 20050, "H": 1}]})
+    for j, tail in enumerate([True, False]):
+        hunks = [{"n": n, "es": [c08_entry("/f%05d" % n, 0, n)]} for n in [0, 1, 9999, 10000, 10001, 20000]]
+        scens.append({"id": sid("C13", "subdir", j), "props": ["C13"], "mode": "clean", "no_create": True, "tags": ["index-subdirectories"],
+                      "steps": [{"op": "layout", "bands": [{"id": 0, "head": True, "tail": tail, "hunks": hunks}], "blocks": []},
+                                {"op": "list", "band": 0}]})
     # hunk boundaries: trees with exactly k*H, k*H+1 entries
     for j, H in enumerate([1, 2, 3]):
         for nfiles in range(0, 8):
@@ -777,6 +787,7 @@ def gen_c10(tier, seed):
     for i in range(m):
         steps, o = damage_archive(rng)
         steps += [{"op": "damage_sweep", "with_header": False, "with_tails": True, "bitflips": 2 if tier == "quick" else 6,
+                   "smart_flips": (3 if tier == "quick" else 12) if i % 2 == 0 else 0,
                    "sample": 0 if tier != "quick" else 50, "seed": seed * 100 + i,
                    "then": [{"op": "versions"}, {"op": "list_all"}, {"op": "restore_all", "latest": True},
                             {"op": "validate", "quick": False}, {"op": "validate", "quick": True},
